@@ -236,6 +236,8 @@ def confirm_c17():
         "three-players": 'EFG 2 R "g" { "P1" "P2" "P3" }\n""\np "" 1 1 "a" { "l" "r" } 0\nt "" 1 "" { 1, -1, 0 }\nt "" 2 "" { -2, 2, 0 }\n',
         "one-player": 'EFG 2 R "g" { "P1" }\n""\np "" 1 1 "a" { "l" "r" } 0\nt "" 1 "" { 1 }\nt "" 2 "" { 2 }\n',
         "not-constant-sum": efg_head + 'p "" 1 1 "a" { "l" "r" } 0\nt "" 1 "" { 1, -1 }\nt "" 2 "" { -2, 5 }\n',
+        "not-constant-sum-offset": efg_head + 'p "" 1 1 "a" { "l" "r" } 0\nt "" 1 "" { 100, -100 }\nt "" 2 "" { 101, -100.9 }\n',
+        "not-constant-sum-offset-negative": efg_head + 'p "" 1 1 "a" { "l" "r" } 0\nt "" 1 "" { -100, 100 }\nt "" 2 "" { -101, 100.9 }\n',
         "zero-probability": efg_head + 'c "" 1 "c" { "x" 0 "y" 1 } 0\nt "" 1 "" { 1, -1 }\nt "" 2 "" { -2, 2 }\n',
         "actions-differ": efg_head + 'p "" 2 1 "r" { "l" "r" } 0\np "" 1 1 "a" { "x" "y" } 0\nt "" 1 "" { 1, -1 }\nt "" 2 "" { 2, -2 }\np "" 1 1 "a" { "x" "z" } 0\nt "" 3 "" { 1, -1 }\nt "" 4 "" { 2, -2 }\n',
         "garbage": "this is not a game file\n",
@@ -277,7 +279,9 @@ def confirm_c17():
     attempt("valid JSON read as Gambit", None, json.dumps(valid_json), ["--input-format", "gambit"])
     attempt("valid Gambit read as JSON", None, valid_efg, ["--input-format", "json"])
     # positive controls: the valid files are solved
-    for label, text, extra in (("valid JSON", json.dumps(valid_json), ["--input-format", "json"]), ("valid Gambit", valid_efg, ["--input-format", "gambit"]), ("valid JSON auto", json.dumps(valid_json), [])):
+    offset_efg = efg_head + 'p "" 1 1 "a" { "l" "r" } 0\nt "" 1 "" { 100, -99 }\nt "" 2 "" { 101, -100 }\n'
+    for label, text, extra in (("valid JSON", json.dumps(valid_json), ["--input-format", "json"]), ("valid Gambit", valid_efg, ["--input-format", "gambit"]), ("valid JSON auto", json.dumps(valid_json), []),
+                               ("valid Gambit with offset payoffs", offset_efg, ["--input-format", "gambit"])):
         runs += 1
         open(os.path.join(d, "stdin.txt"), "w").write(text)
         rc, out, se = run_cli(exe, extra + ["-m", "full", "-p", "1", "-t", "5"], os.path.join(d, "stdin.txt"))
